@@ -120,7 +120,7 @@ def run(ctx):
         ctx.count('wide_attributes', len(specs))
         _account(ctx, specs, ex, evaluated, outcomes, 'wide')
 
-    ctx.run_test(wide, {'ex': S['wide_example']()}, max_examples=ctx.scale(200, 900), name='wide_entity')
+    ctx.run_test(wide, {'ex': S['wide_example']()}, max_examples=ctx.scale(200, 700), name='wide_entity')
     if ctx.violation is not None:
         return
 
@@ -172,7 +172,7 @@ def run(ctx):
         if msg:
             ctx.fail(case, msg)
 
-    ctx.run_test(codec, {'c': codec_cases}, max_examples=ctx.scale(1200, 6000), name='codecs')
+    ctx.run_test(codec, {'c': codec_cases}, max_examples=ctx.scale(1200, 5000), name='codecs')
 
 
 def replay(case):
